@@ -207,14 +207,14 @@ Definition with_settings (s : daily_state) (st : json) : daily_state :=
   {| ds_subs := ds_subs s; ds_error := ds_error s; ds_tz := ds_tz s; ds_dq := ds_dq s;
      ds_warnings := ds_warnings s; ds_settings := st |}.
 
-(* reading back what to_dict wrote: everything is restored as soon as the settings are accepted *)
-Lemma from_doc_to_doc : forall c s, wf_state s ->
-  from_doc cur leg c (to_doc c s) =
-  if accepts (schema_of cur leg c) (settings_out c (ds_settings s))
-  then Some (with_settings s (settings_out c (ds_settings s))) else None.
+(* one settings class reading back what to_dict wrote: everything is restored as soon as the settings are accepted *)
+Lemma one_class_to_doc : forall c c' s, wf_state s ->
+  from_doc_one_class cur leg c (to_doc c' s) =
+  if accepts (schema_of cur leg c) (settings_out c' (ds_settings s))
+  then Some (with_settings s (settings_out c' (ds_settings s))) else None.
 Proof.
-  intros c s [Hdq Hws]. unfold from_doc, to_doc. cbn [field get String.eqb Ascii.eqb Bool.eqb bind].
-  destruct (accepts (schema_of cur leg c) (settings_out c (ds_settings s))); cbn [negb]; [|reflexivity].
+  intros c c' s [Hdq Hws]. unfold from_doc_one_class, to_doc. cbn [field get String.eqb Ascii.eqb Bool.eqb bind].
+  destruct (accepts (schema_of cur leg c) (settings_out c' (ds_settings s))); cbn [negb]; [|reflexivity].
   cbn [as_obj bind].
   rewrite (opt_all_map_inv parse_submodel submodel_doc) by (intros; apply parse_submodel_doc).
   cbn [bind field get String.eqb Ascii.eqb Bool.eqb as_string].
@@ -225,67 +225,78 @@ Qed.
 Lemma with_settings_same : forall s, with_settings s (ds_settings s) = s.
 Proof. intros []. reflexivity. Qed.
 
+(* from_dict as coded (with the legacy fallback of DailyModel) on to_dict's document, in closed form *)
+Lemma from_doc_to_doc : forall c s, wf_state s ->
+  from_doc cur leg c (to_doc c s) =
+  match c with
+  | Daily => if accepts cur (ds_settings s) || accepts leg (ds_settings s) then Some s else None
+  | Billing => if accepts leg (force_dev (ds_settings s)) then Some (with_settings s (force_dev (ds_settings s))) else None
+  end.
+Proof.
+  intros c s Hwf. unfold from_doc. rewrite (one_class_to_doc c c s Hwf). destruct c; cbn [schema_of settings_out].
+  - destruct (accepts cur (ds_settings s)); cbn [orb]; [rewrite with_settings_same; reflexivity|].
+    rewrite (one_class_to_doc Billing Daily s Hwf). cbn [schema_of settings_out].
+    destruct (accepts leg (ds_settings s)); [rewrite with_settings_same|]; reflexivity.
+  - destruct (accepts leg (force_dev (ds_settings s))); reflexivity.
+Qed.
+
 Lemma to_doc_with_settings_billing : forall s,
   to_doc Billing (with_settings s (force_dev (ds_settings s))) = to_doc Billing s.
 Proof. intros s. unfold to_doc, with_settings. cbn. rewrite force_dev_idem. reflexivity. Qed.
-
-(* DailyModel: exact guard = the current settings class accepts the stored tree *)
-Lemma daily_roundtrip_iff : forall s, wf_state s ->
-  (from_doc cur leg Daily (to_doc Daily s) = Some s <-> accepts cur (ds_settings s) = true) /\
-  (from_doc cur leg Daily (to_doc Daily s) = None <-> accepts cur (ds_settings s) = false).
-Proof.
-  intros s Hwf. rewrite (from_doc_to_doc Daily s Hwf). cbn [schema_of settings_out].
-  destruct (accepts cur (ds_settings s)).
-  - rewrite with_settings_same. split; split; intros; try reflexivity; discriminate.
-  - split; split; intros; try reflexivity; discriminate.
-Qed.
 
 (* the full list of what the statement asks of a reloaded daily / billing model *)
 Definition restores (c : mclass) (s s' : daily_state) : Prop :=
   to_doc c s' = to_doc c s /\
   (forall k T, predict_sub s' k T = predict_sub s k T) /\
   maps_of (schema_of cur leg c) s' = maps_of (schema_of cur leg c) s /\
+  (* every day is routed to the same sub-model(s) and predicted identically: the routing maps are the stored ones *)
+  (forall month dow T, predict_day (maps_of (schema_of cur leg c) s') s' month dow T =
+                       predict_day (maps_of (schema_of cur leg c) s) s month dow T) /\
   ds_tz s' = ds_tz s /\ ds_warnings s' = ds_warnings s /\ ds_dq s' = ds_dq s.
 
 Lemma restores_refl : forall c s, restores c s s.
 Proof. intros c s. repeat split. Qed.
 
-Lemma daily_roundtrip_l : forall s, wf_state s -> accepts cur (ds_settings s) = true ->
+(* DailyModel, any profile: restored as soon as one of the two settings classes accepts the stored tree *)
+Lemma daily_roundtrip_l : forall s, wf_state s ->
+  accepts cur (ds_settings s) = true \/ accepts leg (ds_settings s) = true ->
   exists s', from_doc cur leg Daily (to_doc Daily s) = Some s' /\ restores Daily s s'.
 Proof.
   intros s Hwf Hacc. exists s. split; [|apply restores_refl].
-  apply (proj1 (daily_roundtrip_iff s Hwf)). exact Hacc.
+  rewrite (from_doc_to_doc Daily s Hwf). destruct Hacc as [H|H]; rewrite H; [|rewrite orb_true_r]; reflexivity.
+Qed.
+
+Lemma daily_roundtrip_iff : forall s, wf_state s ->
+  (from_doc cur leg Daily (to_doc Daily s) = Some s <-> accepts cur (ds_settings s) || accepts leg (ds_settings s) = true).
+Proof.
+  intros s Hwf. rewrite (from_doc_to_doc Daily s Hwf).
+  destruct (accepts cur (ds_settings s) || accepts leg (ds_settings s)); split; intros; try reflexivity; discriminate.
 Qed.
 
 Lemma billing_roundtrip_l : forall s, wf_state s -> dev_leaf_ok leg = true -> accepts leg (ds_settings s) = true ->
   exists s', from_doc cur leg Billing (to_doc Billing s) = Some s' /\ restores Billing s s'.
 Proof.
   intros s Hwf Hok Hacc. exists (with_settings s (force_dev (ds_settings s))).
-  rewrite (from_doc_to_doc Billing s Hwf). cbn [schema_of settings_out].
+  rewrite (from_doc_to_doc Billing s Hwf).
   rewrite (accepts_force_dev leg _ Hok Hacc). split; [reflexivity|].
+  assert (Hmaps : maps_of (schema_of cur leg Billing) (with_settings s (force_dev (ds_settings s))) =
+                  maps_of (schema_of cur leg Billing) s).
+  { unfold maps_of, with_settings. cbn [ds_settings]. rewrite season_map_force, weekday_map_force. reflexivity. }
   unfold restores. split; [apply to_doc_with_settings_billing|].
-  split; [intros; reflexivity|]. split; [|repeat split].
-  unfold maps_of, with_settings. cbn [ds_settings]. rewrite season_map_force, weekday_map_force. reflexivity.
+  split; [intros; reflexivity|]. split; [exact Hmaps|]. split; [|repeat split].
+  intros month dow T. rewrite Hmaps. reflexivity.
 Qed.
 
-(* the repaired reader (proposed patch): also a legacy DailyModel document is restored *)
-Lemma repaired_roundtrip_l : forall s, wf_state s ->
-  accepts cur (ds_settings s) = true \/ accepts leg (ds_settings s) = true ->
-  from_doc_repaired cur leg Daily (to_doc Daily s) = Some s.
+(* regression witness model: a reader WITHOUT the legacy fallback (the code before /repo 394645be) restores a
+   DailyModel document exactly when the current class accepts its settings *)
+Lemma one_class_roundtrip_iff : forall s, wf_state s ->
+  (from_doc_one_class cur leg Daily (to_doc Daily s) = Some s <-> accepts cur (ds_settings s) = true) /\
+  (from_doc_one_class cur leg Daily (to_doc Daily s) = None <-> accepts cur (ds_settings s) = false).
 Proof.
-  intros s Hwf H. unfold from_doc_repaired.
-  rewrite (from_doc_to_doc Daily s Hwf). cbn [schema_of settings_out].
-  destruct (accepts cur (ds_settings s)) eqn:E.
-  - rewrite with_settings_same. reflexivity.
-  - destruct H as [H|H]; [discriminate|].
-    (* the legacy class reads the DailyModel document: same text, not forced *)
-    destruct Hwf as [Hdq Hws]. unfold from_doc, to_doc.
-    cbn [field get String.eqb Ascii.eqb Bool.eqb bind schema_of settings_out].
-    rewrite H. cbn [negb as_obj bind].
-    rewrite (opt_all_map_inv parse_submodel submodel_doc) by (intros; apply parse_submodel_doc).
-    cbn [bind field get String.eqb Ascii.eqb Bool.eqb as_string].
-    rewrite (parse_warnings_doc _ Hdq). cbn [bind]. rewrite (parse_warnings_doc _ Hws). cbn [bind].
-    destruct s; reflexivity.
+  intros s Hwf. rewrite (one_class_to_doc Daily Daily s Hwf). cbn [schema_of settings_out].
+  destruct (accepts cur (ds_settings s)).
+  - rewrite with_settings_same. split; split; intros; try reflexivity; discriminate.
+  - split; split; intros; try reflexivity; discriminate.
 Qed.
 
 (* ---- any document the class reads: the object it yields is a fixed point of to_dict / from_dict *)
@@ -313,10 +324,10 @@ Proof.
   exact (opt_all_forall parse_warning wf_warning _ _ parse_warning_wf H).
 Qed.
 
-Lemma from_doc_inv : forall c d s, from_doc cur leg c d = Some s ->
+Lemma one_class_inv : forall c d s, from_doc_one_class cur leg c d = Some s ->
   wf_state s /\ accepts (schema_of cur leg c) (ds_settings s) = true.
 Proof.
-  intros c d s H. unfold from_doc in H.
+  intros c d s H. unfold from_doc_one_class in H.
   destruct (field "settings" d) as [st|]; [|discriminate]. cbn [bind] in H.
   destruct (accepts (schema_of cur leg c) st) eqn:Eacc; cbn [negb] in H; [|discriminate].
   destruct (bind (bind (field "submodels" d) as_obj) (fun l => opt_all (map parse_submodel l))); [|discriminate]. cbn [bind] in H.
@@ -331,9 +342,12 @@ Qed.
 Lemma reload_stable_l : forall c d s, dev_leaf_ok leg = true -> from_doc cur leg c d = Some s ->
   exists s', from_doc cur leg c (to_doc c s) = Some s' /\ restores c s s'.
 Proof.
-  intros c d s Hok H. destruct (from_doc_inv c d s H) as [Hwf Hacc]. destruct c.
-  - exact (daily_roundtrip_l s Hwf Hacc).
-  - exact (billing_roundtrip_l s Hwf Hok Hacc).
+  intros c d s Hok H. unfold from_doc in H. destruct c.
+  - destruct (from_doc_one_class cur leg Daily d) as [s0|] eqn:E.
+    + injection H as <-. destruct (one_class_inv Daily d s0 E) as [Hwf Hacc]. apply daily_roundtrip_l; [exact Hwf | left; exact Hacc].
+    + destruct (one_class_inv Billing d s H) as [Hwf Hacc]. apply daily_roundtrip_l; [exact Hwf | right; exact Hacc].
+  - destruct (from_doc_one_class cur leg Billing d) as [s0|] eqn:E; [|discriminate]. injection H as <-.
+    destruct (one_class_inv Billing d s0 E) as [Hwf Hacc]. exact (billing_roundtrip_l s0 Hwf Hok Hacc).
 Qed.
 
 End RoundTrip.
